@@ -218,6 +218,15 @@ func (g *Gen) noteCall(c *ssa.CallCommon, in ssa.Instruction, res *Val, prefix s
 				s.ghost[gn] = sx("+", g.ghostTerm(s, gn), "1")
 			}
 		}
+		for i, a := range c.Args {
+			gn := fmt.Sprintf("$arg:%s:%d", name, i)
+			if _, want := g.ghostSorts[gn]; !want {
+				continue
+			}
+			if av := g.val(a); av != nil && av.T != "" {
+				s.ghost[gn] = av.T
+			}
+		}
 		if res != nil {
 			rs := res.Tuple
 			if rs == nil && res.T != "" {
@@ -622,6 +631,8 @@ func (g *Gen) applyContract(con *Contract, c *ssa.CallCommon, in ssa.Instruction
 	}
 	if con.Trusted {
 		g.assumptions = appendUnique(g.assumptions, "trusted contract: "+con.FullKey())
+	} else if con.IsIface {
+		g.assumptions = appendUnique(g.assumptions, "interface contract: "+con.FullKey())
 	}
 	return res
 }
